@@ -359,12 +359,33 @@ PivotRows(rows, nvis, p1, p2) ==
 FullRows(q, cq, table, sch) ==
     IF cq.gmode = "none" THEN ScanPlain(q, cq, table, sch)
     ELSE LET gs == GroupScan(q, cq, table, 1, <<>>, <<>>, sch) IN FinalizeGroups(q, cq, gs[1], gs[2], sch)
-Exec(q, cq, table, sch) ==
+(* The header of a pivoted result: `first/second`, then per second-key value (ascending, NULL first) one column per
+   remaining visible column, named `value` when exactly one visible column remains and `value/column` otherwise
+   (helper targets of HAVING / ORDER BY are not columns), typed like the remaining columns.  Key values are written
+   as Python writes them; names are <<>> (not judged) when a key is a decimal or a date. *)
+KeyText(v) == CASE v.t = "int" -> IntToStr(v.n) [] v.t = "str" -> v.s [] v.t = "null" -> "None"
+                [] v.t = "bool" -> (IF v.n = 1 THEN "True" ELSE "False") [] OTHER -> "?"
+PivotHead(rows, names, types, nvis, p1, p2) ==
+    LET others == SelectSeq([j \in 1..nvis |-> j], LAMBDA j : j # p1 /\ j # p2)
+        no == Len(others)
+        k2 == DistinctAsc([i \in 1..Len(rows) |-> rows[i][p2]])
+        ok == \A i \in 1..Len(k2) : k2[i].t \in {"int", "str", "null", "bool"}
+        one(kk) == IF no = 1 THEN <<KeyText(k2[kk])>> ELSE [o \in 1..no |-> KeyText(k2[kk]) \o "/" \o names[others[o]]]
+        onet == [o \in 1..no |-> types[others[o]]]
+        RECURSIVE CatN(_)
+        CatN(kk) == IF kk = 0 THEN <<>> ELSE CatN(kk - 1) \o one(kk)
+        RECURSIVE CatT(_)
+        CatT(kk) == IF kk = 0 THEN <<>> ELSE CatT(kk - 1) \o onet
+    IN [names |-> IF ok THEN <<names[p1] \o "/" \o names[p2]>> \o CatN(Len(k2)) ELSE <<>>,
+        types |-> <<types[p1]>> \o CatT(Len(k2))]
+ExecCut(q, cq, table, sch) ==
     LET full == FullRows(q, cq, table, sch)
         sorted == IF Len(cq.ospec) = 0 THEN full ELSE SortPasses(full, cq.ospec, Len(cq.ospec))
         proj == Project(sorted, cq)
         dist == IF q.distinct THEN Uniq(proj, <<>>) ELSE proj
-        cut == Cut(dist, q.limit)
+    IN Cut(dist, q.limit)
+Exec(q, cq, table, sch) ==
+    LET cut == ExecCut(q, cq, table, sch)
     IN IF Len(cq.pivot) = 0 THEN cut ELSE PivotRows(cut, cq.nvis, cq.pivot[1], cq.pivot[2])
 HasOOD(rows) == \E i \in 1..Len(rows) : \E j \in 1..Len(rows[i]) : rows[i][j].t = "ood"
 AnyWhereOOD(q, table, sch) == \E i \in 1..Len(table) : WhereOOD(q, table[i], sch)
@@ -386,7 +407,11 @@ RunFlat(q, table, sch, cols) ==
     ELSE LET names == [j \in 1..cq.nvis |-> cq.ts[j].name]
              types == [j \in 1..cq.nvis |-> TypeOf(cq.ts[j].e, sch)] IN
          IF ExecOOD(fq, cq, table, sch) THEN [ok |-> TRUE, err |-> "", ood |-> TRUE, names |-> names, types |-> types, rows |-> <<>>]
-         ELSE [ok |-> TRUE, err |-> "", ood |-> FALSE, names |-> names, types |-> types, rows |-> Exec(fq, cq, table, sch)]
+         ELSE IF Len(cq.pivot) = 0 THEN [ok |-> TRUE, err |-> "", ood |-> FALSE, names |-> names, types |-> types, rows |-> Exec(fq, cq, table, sch)]
+         ELSE LET cut == ExecCut(fq, cq, table, sch)
+                  hd == PivotHead(cut, names, types, cq.nvis, cq.pivot[1], cq.pivot[2]) IN
+              [ok |-> TRUE, err |-> "", ood |-> FALSE, names |-> hd.names, types |-> hd.types,
+               rows |-> PivotRows(cut, cq.nvis, cq.pivot[1], cq.pivot[2])]
 AllDistinct(s) == \A i, j \in 1..Len(s) : i # j => s[i] # s[j]
 RECURSIVE Run(_, _, _, _)
 RECURSIVE ResolveE(_, _, _, _)
